@@ -21,8 +21,10 @@ class StepBudgetExceeded(BaseException):
 
 
 class Monitor:
-    def __init__(self, prefixes):
+    def __init__(self, prefixes, exclude=()):
         self.prefixes = tuple(prefixes)
+        # pure-Python helpers whose work is bounded by construction (chunk-sampling charset detection): not counted, ~100x faster
+        self.exclude = tuple(exclude)
         self.steps = 0
         self.budget = None
         self.raised = 0
@@ -47,7 +49,7 @@ class Monitor:
 
     def _on_start(self, code, offset):
         # switch on LINE events only for code objects of the library under test and its pure-Python dependencies
-        if code.co_filename.startswith(self.prefixes):
+        if code.co_filename.startswith(self.prefixes) and not (self.exclude and any(x in code.co_filename for x in self.exclude)):
             try:
                 sys.monitoring.set_local_events(TOOL, code, EV.LINE)
             except Exception:
